@@ -250,7 +250,12 @@ impl<T: RefCnt, Cfg: Config> CaS<T> for HybridStrategy<Cfg> {
                 .is_ok()
             {
                 // We successfully put the new value in. The ref count went in there too.
-                T::into_ptr(new);
+                //
+                // The raw pointer (as_ptr above) is already in the storage, so we only need to give
+                // up the ownership here, without computing the pointer again: another thread may
+                // have taken the value out of the storage and released it by now, and into_ptr
+                // (Arc::into_raw) would do pointer arithmetic on a freed allocation.
+                mem::forget(new);
                 <Self as InnerStrategy<T>>::wait_for_readers(self, old.as_ptr(), storage);
                 // We just got one ref count out of the storage and we have one in old. We don't
                 // need two.
